@@ -2,7 +2,8 @@
 
 
 def install_all(it):
-    from . import bytesm, btree, timekad, maddr, env, seq, core, cidm
+    from . import bytesm, btree, timekad, maddr, env, seq, core, cidm, strm
+    strm.install(it)
     cidm.install(it)
     bytesm.install(it)
     btree.install(it)
